@@ -99,6 +99,16 @@ BUILT = {
             'str input only; bracket nesting <= 3; TAB-bearing texts are exempt from the column-range check while finding '
             'zinc.tab-position is open.',
             'DESIGN.md 3/C09'),
+    'C10': ('exhaustive label x entry-path x kind table and short histories + hypothesis histories against a reference gating model; five-decision agreement',
+            'Grids are built and mutated through every entry path (constructor, metadata and column-metadata stores, append, '
+            'insert, extend, +=, item assignment, two bypass paths) with 3.0-only values (NA, list, dict, nested grid, XStr; '
+            'direct or nested) under no label / 1.0 / 2.0 / 2.5 / 3.0 / 3.0.0 / 4.0. After every step the reference model decides: '
+            'auto-upgrade, ValueError with the grid unchanged, or stored; both writers must refuse iff the label refuses, '
+            'their output must read back; the same content written by the independent writers must be rejected by both hszinc '
+            'readers iff the label refuses; and the five decisions must agree per label.',
+            'Nearest-official-version semantics for in-between labels is taken from Version.nearest (pinned by the test-suite); '
+            'Bin not generated.',
+            'DESIGN.md 3/C10'),
     'C14': ('exhaustive small-scope enumeration of operation histories + hypothesis histories, lock-step with a Python list model',
             'Every history of up to 4 (quick) / 5 (thorough) operations over a 27-op alphabet (append, insert, extend, +=, item '
             'assignment, del by index and slice, pop, remove, reverse, clear, continue-on-slice, refused non-dict rows and '
